@@ -2,6 +2,7 @@ package main
 
 import (
 	"fmt"
+	"go/token"
 	"strings"
 
 	"golang.org/x/tools/go/ssa"
@@ -9,10 +10,10 @@ import (
 
 func init() {
 	register(&property{
-		ID: "C05",
-		Explanation: "Static decision of the mechanisms that bound the matching phase: (R1) the matching deadline is computed once per routing from time.Now()+timeout, outside every loop, and every SetReadDeadline in the router passes that value or the zero time; (R2/R3) on every path of the bounded abstract interpretation of the compiled route handler (0..3 routes, all outcomes) the deadline is armed before each prefetch and cleared before each route handler chain and before the fallback; (R4) after a failed prefetch or a matcher error nothing else runs and nil is returned, and Server.handle registers conn.Close() unconditionally as its first deferred action; (R5) prefetch, evaluated over the orderings of len(buf) against the matching limit (and with a non-zero cursor), reads at most one chunk and only while len(buf) < MaxMatchingBytes, otherwise returns ErrMatchingBufferFull without reading; (R6) the emulated UDP deadline is stored and reloaded with the same sub-second encoding.",
-		NotDecided: "Wall-clock bounds themselves (scheduling slack, kernel timers), the behaviour of net.Conn deadlines (trusted), the http matcher's own buffer-full answer, timeouts of nested subroutes adding up.",
-		Run:        runC05,
+		ID:          "C05",
+		Explanation: "Static decision of the mechanisms that bound the matching phase: (R1) the matching deadline is computed once per routing from time.Now()+timeout, outside every loop, and every SetReadDeadline in the router passes that value or the zero time; (R2/R3) on every path of the bounded abstract interpretation of the compiled route handler (0..3 routes, all outcomes) the deadline is armed before each prefetch and cleared before each route handler chain and before the fallback; (R4) after a failed prefetch or a matcher error nothing else runs and nil is returned, and Server.handle registers conn.Close() unconditionally as its first deferred action; (R5) prefetch, evaluated over the orderings of len(buf) against the matching limit (and with a non-zero cursor), reads at most one chunk and only while len(buf) < MaxMatchingBytes, otherwise returns ErrMatchingBufferFull without reading; (R6) the emulated UDP deadline is stored and reloaded with the same sub-second encoding; (R7) no module-defined Set*Deadline performs a blocking channel operation (the router arms and clears the deadline from the connection goroutine and must get control back).",
+		NotDecided:  "Wall-clock bounds themselves (scheduling slack, kernel timers), the behaviour of net.Conn deadlines (trusted), the http matcher's own buffer-full answer, timeouts of nested subroutes adding up.",
+		Run:         runC05,
 	})
 }
 
@@ -22,6 +23,7 @@ func runC05(c *Ctx, r *Report) {
 	c05R4(c, r, "C05.R4")
 	c05R5(c, r, "C05.R5")
 	c05R6(c, r, "C05.R6")
+	c05R7(c, r, "C05.R7")
 }
 
 func c05R1(c *Ctx, r *Report, rule string) {
@@ -187,7 +189,9 @@ func c05R5(c *Ctx, r *Report, rule string) {
 	if p := c.ByPath[modPath+"/layer4"]; p != nil {
 		for _, nm := range []string{"MaxMatchingBytes", "prefetchChunkSize"} {
 			if o := p.Types.Scope().Lookup(nm); o != nil {
-				if cst, ok := o.(interface{ Val() interface{ String() string } }); ok {
+				if cst, ok := o.(interface {
+					Val() interface{ String() string }
+				}); ok {
 					_ = cst
 				}
 			}
@@ -316,5 +320,55 @@ func c05R6(c *Ctx, r *Report, rule string) {
 			}
 		}
 		r.check(okDec, rule, name, "decoder agrees", c.pos(fn.Pos()), "the stored deadline is decoded with the matching constructor in "+where, "the stored deadline ("+want+") is decoded with a constructor for a different unit (in "+where+"): the deadline is off by orders of magnitude")
+	}
+}
+
+// c05R7: a deadline setter must return. The router calls SetReadDeadline before every prefetch round and
+// before every handler; a setter that can wait on a channel (the textbook "drain the timer" idiom is one,
+// because Read consumes the same channel) leaves the connection in the matching phase for ever.
+func c05R7(c *Ctx, r *Report, rule string) {
+	r.rule(rule, "module-defined SetDeadline/SetReadDeadline/SetWriteDeadline implementations (and the module functions they call) contain no blocking channel operation: no receive, no send, no select without default", 1)
+	for _, fn := range c.Funcs {
+		switch fn.Name() {
+		case "SetReadDeadline", "SetDeadline", "SetWriteDeadline":
+		default:
+			continue
+		}
+		if fn.Signature.Recv() == nil || len(fn.Blocks) == 0 || fn.Synthetic != "" {
+			continue
+		}
+		var bad []string
+		seen := map[*ssa.Function]bool{}
+		var scan func(f *ssa.Function, depth int)
+		scan = func(f *ssa.Function, depth int) {
+			if seen[f] || depth > 4 || len(f.Blocks) == 0 {
+				return
+			}
+			seen[f] = true
+			for _, b := range f.Blocks {
+				for _, in := range b.Instrs {
+					switch x := in.(type) {
+					case *ssa.UnOp:
+						if x.Op == token.ARROW {
+							bad = append(bad, "receive at "+c.ipos(in))
+						}
+					case *ssa.Send:
+						bad = append(bad, "send at "+c.ipos(in))
+					case *ssa.Select:
+						if x.Blocking {
+							bad = append(bad, "blocking select at "+c.ipos(in))
+						}
+					case ssa.CallInstruction:
+						if cal := x.Common().StaticCallee(); cal != nil && cal.Pkg != nil && strings.HasPrefix(cal.Pkg.Pkg.Path(), modPath) {
+							if _, isGo := in.(*ssa.Go); !isGo {
+								scan(cal, depth+1)
+							}
+						}
+					}
+				}
+			}
+		}
+		scan(fn, 0)
+		r.check(len(bad) == 0, rule, fname(fn), "non-blocking", c.pos(fn.Pos()), "no channel operation that can wait", "the deadline setter can block: "+strings.Join(bad, ", ")+" - if nothing is (or another goroutine already consumed what was) on that channel the router never gets control back: matching never times out and the connection is never released")
 	}
 }
